@@ -402,7 +402,8 @@ func genC08(c *Ctx) {
 	for _, pol := range []int{polV3, polV2} {
 		for starter := 1; starter <= 2; starter++ {
 			for cut := 0; cut <= 4; cut++ {
-				for _, local := range []bool{false, true} {
+				for mode := 0; mode < 4; mode++ {
+					local := mode == 1
 					pols := []int{pol, pol}
 					s := newSys(pols, c.R.U64())
 					s.keepSecrets()
@@ -428,9 +429,20 @@ func genC08(c *Ctx) {
 						s.Probe(c, 2, book)
 						from, to = to, from
 					}
-					if local {
+					switch {
+					case mode >= 2:
+						// the exchange is abandoned for a new one: a further query arrives (at the side that started this
+						// one, or at the other) after the waiting time; what the abandoned exchange held must be erased
+						s.tick(200)
+						if mode == 2 {
+							s.Query(other, starter)
+						} else {
+							s.Query(starter, other)
+						}
+						c.Count("query-inside-refresh-exchange")
+					case local:
 						s.End(1) // our own End in the middle of the exchange
-					} else {
+					default:
 						s.End(2) // the peer ends: its disconnect travels behind whatever it has already sent
 					}
 					s.Probe(c, 1, book)
